@@ -142,3 +142,83 @@ Fixpoint parser_normal (e : expr) : Prop :=
   | ECall _ _ args => (fix go (l : list expr) : Prop :=
                          match l with [] => True | a :: l' => parser_normal a /\ go l' end) args
   end.
+
+(* ---- vocabulary of the secondary theorems ----------------------------- *)
+
+(* all sub-expressions of e, e included *)
+Fixpoint subterms (e : expr) : list expr :=
+  e :: match e with
+       | EDeref r _ => subterms r
+       | EArrDeref r => subterms r
+       | EIndex o i => subterms o ++ subterms i
+       | ENot _ a => subterms a
+       | ECmp _ l r => subterms l ++ subterms r
+       | ELog _ l r => subterms l ++ subterms r
+       | ECall _ _ args => flat_map subterms args
+       | _ => []
+       end.
+
+(* the variable an access chain starts at *)
+Fixpoint root_var (e : expr) : option (tpos * string) :=
+  match e with
+  | EVar p n => Some (p, n)
+  | EDeref r _ => root_var r
+  | EArrDeref r => root_var r
+  | EIndex o _ => root_var o
+  | _ => None
+  end.
+
+(* e with the arguments of every sanitising call removed *)
+Fixpoint erase_safe (e : expr) : expr :=
+  match e with
+  | EDeref r n => EDeref (erase_safe r) n
+  | EArrDeref r => EArrDeref (erase_safe r)
+  | EIndex o i => EIndex (erase_safe o) (erase_safe i)
+  | ENot p a => ENot p (erase_safe a)
+  | ECmp op l r => ECmp op (erase_safe l) (erase_safe r)
+  | ELog op l r => ELog op (erase_safe l) (erase_safe r)
+  | ECall p c args => if sanitising c then ECall p c [] else ECall p c (map erase_safe args)
+  | _ => e
+  end.
+
+(* what expr_parser.go does to names: VariableNode.Name and
+   ObjectDerefNode.Property are lower-cased, string literals are kept *)
+Fixpoint pnorm (e : expr) : expr :=
+  match e with
+  | EVar p n => EVar p (lower n)
+  | EDeref r n => EDeref (pnorm r) (lower n)
+  | EArrDeref r => EArrDeref (pnorm r)
+  | EIndex o i => EIndex (pnorm o) (pnorm i)
+  | ENot p a => ENot p (pnorm a)
+  | ECmp op l r => ECmp op (pnorm l) (pnorm r)
+  | ELog op l r => ELog op (pnorm l) (pnorm r)
+  | ECall p c args => ECall p c (map pnorm args)
+  | _ => e
+  end.
+
+(* the same expression written in another letter case: variable, property and
+   function names and string literals may differ in case, nothing else *)
+Fixpoint recase (e e' : expr) {struct e} : Prop :=
+  match e, e' with
+  | EVar p n, EVar p' n' => p = p' /\ lower n = lower n'
+  | ENull p, ENull p' => p = p'
+  | EBool p b, EBool p' b' => p = p' /\ b = b'
+  | EInt p z, EInt p' z' => p = p' /\ z = z'
+  | EFloat p r, EFloat p' r' => p = p' /\ r = r'
+  | EStr p s, EStr p' s' => p = p' /\ lower s = lower s'
+  | EDeref r n, EDeref r' n' => recase r r' /\ lower n = lower n'
+  | EArrDeref r, EArrDeref r' => recase r r'
+  | EIndex o i, EIndex o' i' => recase o o' /\ recase i i'
+  | ENot p a, ENot p' a' => p = p' /\ recase a a'
+  | ECmp op l r, ECmp op' l' r' => op = op' /\ recase l l' /\ recase r r'
+  | ELog op l r, ELog op' l' r' => op = op' /\ recase l l' /\ recase r r'
+  | ECall p c args, ECall p' c' args' =>
+      p = p' /\ lower c = lower c' /\
+      (fix go (l l' : list expr) : Prop :=
+         match l, l' with
+         | [], [] => True
+         | a :: t, a' :: t' => recase a a' /\ go t t'
+         | _, _ => False
+         end) args args'
+  | _, _ => False
+  end.
